@@ -600,7 +600,9 @@ package tacquito
 //@   modifies ghost.gauge
 //@   ensures[C20] ghost.gauge[sessionsActive] == old(ghost.gauge[sessionsActive]) - len(s.known)
 //@   ensures[C20] ghost.gauge == upd(old(ghost.gauge), sessionsActive, ghost.gauge[sessionsActive])
-//@   loop 1 invariant true
+//@   loop 1 invariant 0 <= rangecount && rangecount <= len(s.known)
+//@   loop 1 invariant ghost.gauge[sessionsActive] == old(ghost.gauge[sessionsActive]) - rangecount
+//@   loop 1 invariant ghost.gauge == upd(old(ghost.gauge), sessionsActive, ghost.gauge[sessionsActive])
 
 // ---------------------------------------------------------------------------
 // server.go
@@ -613,12 +615,39 @@ package tacquito
 //@   ensures[C07,C17] ghost.closed == old(ghost.closed) + 1
 //@   ensures[C07] ghost.handled - old(ghost.handled) <= ghost.reads - old(ghost.reads)
 //@   ensures[C07] ghost.replies - old(ghost.replies) == ghost.handled - old(ghost.handled)
-//@   ensures[C20] ghost.gauge[handlers] == old(ghost.gauge[handlers])
-//@   ensures[C20] ghost.gauge[sessionsActive] == old(ghost.gauge[sessionsActive])
+//@   ensures[C20] ghost.gauge == old(ghost.gauge)
 //@   loop 1 invariant wfSessions(sessionProvider) && fresh(sessionProvider)
 //@   loop 1 invariant[C08,C20] allLive(sessionProvider)
 //@   loop 1 invariant[C07] ghost.closed == old(ghost.closed)
 //@   loop 1 invariant[C07] ghost.reads - old(ghost.reads) == ghost.handled - old(ghost.handled)
 //@   loop 1 invariant[C07] ghost.replies - old(ghost.replies) == ghost.handled - old(ghost.handled)
-//@   loop 1 invariant[C20] ghost.gauge[handlers] == old(ghost.gauge[handlers])
-//@   loop 1 invariant[C20] ghost.gauge[sessionsActive] - len(sessionProvider.known) == old(ghost.gauge[sessionsActive])
+//@   loop 1 invariant[C20] ghost.gauge == upd(old(ghost.gauge), sessionsActive, old(ghost.gauge)[sessionsActive] + len(sessionProvider.known))
+
+//@ func (w *waitGroup) Add(delta int)
+//@   ghostinc wgAdds
+//@   requires w != nil
+//@   modifies w.active, ghost.gauge
+//@   ensures[C20] ghost.gauge == upd(old(ghost.gauge), waitgroupActive, old(ghost.gauge)[waitgroupActive] + 1)
+
+//@ func (w *waitGroup) Done()
+//@   ghostinc wgDones
+//@   requires w != nil
+//@   modifies w.active, ghost.gauge
+//@   ensures[C20] ghost.gauge == upd(old(ghost.gauge), waitgroupActive, old(ghost.gauge)[waitgroupActive] - 1)
+
+//@ func (s *Server) serve(ctx context.Context, conn net.Conn)
+//@   ghostinc spawned
+//@   requires s != nil && s.loggerProvider != nil && s.SecretProvider != nil && ctx != nil && conn != nil && !s.proxy
+//@   modifies s.waitGroup.active, ghost.inPos, ghost.nwrites, ghost.written, ghost.md5acc, ghost.gauge, ghost.armed, ghost.dead, ghost.reads, ghost.handled, ghost.replies, ghost.closed, ghost.wgDones
+//@   ensures[C17,C20] ghost.wgDones == old(ghost.wgDones) + 1
+//@   ensures[C07,C13,C17] ghost.closed == old(ghost.closed) + 1
+//@   ensures[C20] ghost.gauge == upd(old(ghost.gauge), waitgroupActive, old(ghost.gauge)[waitgroupActive] - 1)
+//@   ensures[C13] ghost.handled == old(ghost.handled) ==> ghost.replies == old(ghost.replies)
+
+//@ func (s *Server) Serve(ctx context.Context, listener DeadlineListener) (err error)
+//@   requires s != nil && s.loggerProvider != nil && s.SecretProvider != nil && ctx != nil && listener != nil && !s.proxy
+//@   modifies s.waitGroup.active, ghost.gauge, ghost.wgAdds, ghost.spawned, ghost.lclosed, ghost.waited
+//@   ensures[C17] ghost.lclosed == old(ghost.lclosed) + 1 && ghost.waited == old(ghost.waited) + 1
+//@   ensures[C17] ghost.wgAdds - old(ghost.wgAdds) == ghost.spawned - old(ghost.spawned)
+//@   loop 1 invariant[C17] ghost.wgAdds - old(ghost.wgAdds) == ghost.spawned - old(ghost.spawned)
+//@   loop 1 invariant[C17] ghost.lclosed == old(ghost.lclosed) && ghost.waited == old(ghost.waited)
